@@ -146,7 +146,7 @@ impl Ctx {
 
     /// returns true if the fuse fires
     fn tick(&mut self, k: FuseKind) -> bool {
-        self.counts[k.idx()] += 1;
+        self.counts[k.idx()] = self.counts[k.idx()].saturating_add(1);
         if let Some((fk, left)) = self.fuse {
             if fk == k {
                 if left == 0 {
